@@ -2,7 +2,7 @@
    safe.  Statements only: each theorem is closed by [exact], pinned by [Check]
    and followed by [Print Assumptions]. *)
 From Coq Require Import List ZArith NArith Bool.
-From RB Require Import Base.Val Model.Api Spec.ApiSpec Proofs.ApiRt Proofs.ApiNlri Proofs.Api.
+From RB Require Import Base.Val Model.Api Spec.ApiSpec Proofs.ApiRt Proofs.ApiNlri Proofs.ApiEvpn Proofs.ApiGuard Proofs.Api.
 Import ListNotations.
 Open Scope N_scope.
 
@@ -184,3 +184,62 @@ Check local_path_accepts_wf :
     /\ existsb (fun a => a_code a =? ORIGIN) attrs = true
     /\ existsb (fun a => a_code a =? AS_PATH) attrs = true.
 Print Assumptions local_path_accepts_wf.
+
+(* (13) net_from_api (nlri_to_api n) = n for every well-formed EVPN route of the five
+   types (RD, ESI, MAC address text, IPv4 / IPv6 address text, one or two labels),
+   under the stated assumptions on the Ipv6Addr textual form. *)
+Theorem evpn_roundtrip :
+  forall (v6p : N -> list N) (v6r : list N -> option N) (e : evpn),
+    v6_contract v6p v6r -> v6_nonempty v6p -> wf_evpn e ->
+    evpn_from_api v6r (evpn_to_api v6p e) = Some e.
+Proof. exact C17_evpn_roundtrip. Qed.
+Check evpn_roundtrip :
+  forall (v6p : N -> list N) (v6r : list N -> option N) (e : evpn),
+    v6_contract v6p v6r -> v6_nonempty v6p -> wf_evpn e ->
+    evpn_from_api v6r (evpn_to_api v6p e) = Some e.
+Print Assumptions evpn_roundtrip.
+
+(* (14) An EVPN route accepted by net_from_api is one the EVPN decoder can produce:
+   24-bit labels, ten-octet ESI, six-octet MAC, prefix length within the prefix's
+   address width, gateway of the prefix's family. *)
+Theorem evpn_from_api_preserves_wf :
+  forall (v6r : list N -> option N) (x : api_evpn) (e : evpn),
+    v6_range v6r -> api_evpn_in_range x -> evpn_from_api v6r x = Some e -> wf_evpn e.
+Proof. exact C17_evpn_from_api_preserves_wf. Qed.
+Check evpn_from_api_preserves_wf :
+  forall (v6r : list N -> option N) (x : api_evpn) (e : evpn),
+    v6_range v6r -> api_evpn_in_range x -> evpn_from_api v6r x = Some e -> wf_evpn e.
+Print Assumptions evpn_from_api_preserves_wf.
+
+(* (15) TUNNEL_ENCAP, PREFIX_SID and the BGP-LS attribute: whatever the typed converters
+   do (they are uninterpreted functions here), what the wrapper of attr_to_api shows for a
+   well-formed held attribute is turned back by attr_from_api into the same type and bytes
+   with the canonical flags; the only thing not covered is a panic inside a converter. *)
+Theorem noncore_roundtrip_guarded :
+  forall (typed_of_bytes bytes_of_typed : N -> list N -> res (option (list N))) (a : attr) (x : api_nc),
+    wf_attr a -> core_code (a_code a) = false ->
+    to_api_nc typed_of_bytes bytes_of_typed a = Ok x ->
+    from_api_nc bytes_of_typed x = Ok (Some (canon_of a)).
+Proof. exact C17_noncore_roundtrip_guarded. Qed.
+Check noncore_roundtrip_guarded :
+  forall (typed_of_bytes bytes_of_typed : N -> list N -> res (option (list N))) (a : attr) (x : api_nc),
+    wf_attr a -> core_code (a_code a) = false ->
+    to_api_nc typed_of_bytes bytes_of_typed a = Ok x ->
+    from_api_nc bytes_of_typed x = Ok (Some (canon_of a)).
+Print Assumptions noncore_roundtrip_guarded.
+
+(* (16) A typed TunnelEncap / PrefixSid / Ls message accepted by attr_from_api yields a
+   well-formed attribute (within the attribute length bound), given only that the
+   converter returns a byte string. *)
+Theorem noncore_typed_from_api_wf :
+  forall (bytes_of_typed : N -> list N -> res (option (list N))) (c : N) (t : list N) (a : attr),
+    c = TUNNEL_ENCAP \/ c = LS \/ c = PREFIX_SID ->
+    (forall b, bytes_of_typed c t = Ok (Some b) -> bytes_ok b) ->
+    from_api_nc bytes_of_typed (NcTyped c t) = Ok (Some a) -> wf_attr a.
+Proof. exact C17_noncore_typed_from_api_wf. Qed.
+Check noncore_typed_from_api_wf :
+  forall (bytes_of_typed : N -> list N -> res (option (list N))) (c : N) (t : list N) (a : attr),
+    c = TUNNEL_ENCAP \/ c = LS \/ c = PREFIX_SID ->
+    (forall b, bytes_of_typed c t = Ok (Some b) -> bytes_ok b) ->
+    from_api_nc bytes_of_typed (NcTyped c t) = Ok (Some a) -> wf_attr a.
+Print Assumptions noncore_typed_from_api_wf.
